@@ -2,8 +2,10 @@ package server
 
 import (
 	"errors"
+	"io"
 	"net"
 	"net/http"
+	"strconv"
 
 	"github.com/cbeuw/Cloak/internal/common"
 	"github.com/gorilla/websocket"
@@ -147,9 +149,16 @@ func (ws *wsHandshakeHandler) ServeHTTP(w http.ResponseWriter, r *http.Request) 
 		// responder closes the connection as soon as it hears of it, and whether the peer gets this reply or a
 		// bare close must not depend on which of the two is faster
 		Error: func(w http.ResponseWriter, r *http.Request, status int, reason error) {
+			// what http.Error would send, but with its length announced: without one the early flush makes the
+			// reply chunked, and the chunk that ends it would be written only after the handler has returned
+			body := http.StatusText(status) + "\n"
 			w.Header().Set("Sec-Websocket-Version", "13")
 			w.Header().Set("Connection", "close")
-			http.Error(w, http.StatusText(status), status)
+			w.Header().Set("Content-Type", "text/plain; charset=utf-8")
+			w.Header().Set("X-Content-Type-Options", "nosniff")
+			w.Header().Set("Content-Length", strconv.Itoa(len(body)))
+			w.WriteHeader(status)
+			io.WriteString(w, body)
 			if f, ok := w.(http.Flusher); ok {
 				f.Flush()
 			}
